@@ -21,6 +21,27 @@ def multi_error_programs(seed, count):
             first = "%s = %s" % (names[0], " + ".join(deps))
             rest = ["%s = %d + %d" % (x, r.randint(0, 9), r.randint(0, 9)) for x in names[1:]]
             progs.append("; ".join([first] + rest + [names[0]]))
+    # several offending definitions in one group (each with its own unavailable dependencies)
+    for rep in range(count * 2):
+        n = r.randint(3, 6)
+        names = ["e%d" % i for i in range(n)]
+        defs = []
+        for i, x in enumerate(names):
+            later = names[i + 1:]
+            if later and r.random() < 0.7:
+                deps = r.sample(later, r.randint(1, min(3, len(later))))
+                defs.append("%s = %s + %d" % (x, " + ".join(deps), r.randint(0, 9)))
+            else:
+                defs.append("%s = %d + %d" % (x, r.randint(0, 9), r.randint(0, 9)))
+        progs.append("; ".join(defs + [" + ".join(names[:2])]))
+    # several names of one group clashing with enclosing binders; several unbound names at once
+    for rep in range(count):
+        outer = ["x", "y", "z", "w"][:r.randint(2, 4)]
+        inner = outer[:]
+        r.shuffle(inner)
+        progs.append(" ".join("(%s : int) =>" % o for o in outer) + " (" + "; ".join("%s = %d" % (v, i) for i, v in enumerate(inner)) + "; " + " + ".join(inner) + ")")
+        progs.append("(%s : int) => %s" % (outer[0], " + ".join("u%d" % r.randint(0, 5) for _ in range(r.randint(2, 5)))))
+        progs.append("; ".join("%s = %d" % (v, i) for i, v in enumerate(inner)) + "; (" + "; ".join("%s = %d" % (v, i) for i, v in enumerate(reversed(inner))) + "; " + inner[0] + ")")
     # nested: two groups each with several errors
     progs.append("x = y + z + w; y = 1 + 1; z = 1 + 1; w = 1 + 1; x")
     progs.append("a = (p = q + r + s; q = 1 + 1; r = 2 + 2; s = 3 + 3; p) + b + c; b = 1 + 1; c = 2 + 2; a")
@@ -33,6 +54,13 @@ def multi_error_programs(seed, count):
 def run(c):
     gram = vf.build_gram()
     vf.build_harness()
+    # M: the definition-order traversal as a machine (GramDefOrder): with the variables visited in sorted order the list of
+    # diagnostics is the same on every behaviour, and as a set it is the declarative rule's (all dependency graphs of 3 definitions)
+    sm = vf.tlc_generate("GramDefOrder", 'CONSTANTS N = 3  Mode = "sorted"\nINIT Init\nNEXT Next\nINVARIANTS Deterministic RefinesRule\nCHECK_DEADLOCK FALSE\n', "deforder-3", timeout=1200, workers=8)
+    c.add_tlc(sm, "definition-order traversal machine: diagnostics independent of scheduling, refines the declarative rule")
+    if sm["violated"]:
+        c.spec_violation(sm, "definition-order traversal")
+        return
     d = os.path.join(vf.WORK, "cli13")
     os.makedirs(d, exist_ok=True)
     k = 12 if c.quick else 30
